@@ -427,7 +427,12 @@ def states_for(tm, tier):
                 if not op[0].startswith("read_"):
                     out.append((i, (r, op)))
     if tier != "quick":
-        out.extend((i, ()) for i in tm.select_seeds("files"))
+        # sample files, except the sheet whose repeated tail makes it 65536 rows high
+        # (every getter x every returned object x every mutation is quadratic in the height)
+        for i in tm.select_seeds("files"):
+            st = tm.new(tm.seed_list[i])
+            if st.model.height <= 64 and st.model.width <= 64:
+                out.append((i, ()))
     return out
 
 
